@@ -201,16 +201,15 @@ class InventoryFileReader:
         self.buffer += chunk
 
     def readline(self) -> str:
-        pos = self.buffer.find(b"\n")
+        # read until the line is complete: a stream may return few bytes per read
+        while (pos := self.buffer.find(b"\n")) == -1 and not self.eof:
+            self.read_buffer()
         if pos != -1:
             line = self.buffer[:pos].decode()
             self.buffer = self.buffer[pos + 1 :]
-        elif self.eof:
+        else:
             line = self.buffer.decode()
             self.buffer = b""
-        else:
-            self.read_buffer()
-            line = self.readline()
 
         return line
 
